@@ -30,21 +30,21 @@ RULE_MODULES: Dict[str, str] = {
 # property -> list of obligation-id prefixes ("R1" selects every obligation of R1,
 # "R1/O3" only that sub-obligation)
 PROPERTY_RULES: Dict[str, List[str]] = {
-    "C01": ["R7/R9", "R8", "R1/O1", "R1/O4", "R1/O5", "R7/key", "R2/INFLIGHT", "R2/sink", "R2/anc", "R2/own", "R2/until", "R2/extra", "R3/P1", "R3/P4", "R3/P5", "R5", "R6",
+    "C01": ["R7/R9", "R8", "R1/O1", "R1/O2", "R1/O4", "R1/O5", "R7/key", "R2/INFLIGHT", "R2/sink", "R2/anc", "R2/own", "R2/until", "R2/extra", "R3/P1", "R3/P4", "R3/P5", "R5", "R6",
             "R20/table/input_delays", "R20/delay", "R20/writers", "R19/interval", "R19/anc-closure"],
     "C02": ["R22/readers", "R7/R9", "R8", "R2/INFLIGHT", "R2/anc", "R2/own", "R3/P", "R4", "R5", "R11/schedule", "R11/sched-value", "R11/time-arg", "R11/last-step", "R20/table/triggers", "R20/delay", "R20/writers",
             "R19/anc-closure"],
     "C03": ["R21", "R8/lift", "R17", "R5/store", "R5/update_min", "R20/delay", "R20/table", "R20/writers", "R11/out", "R4/outtime", "R1/O1", "R1/O4", "R2/INFLIGHT", "R2/anc", "R2/own"],
-    "C04": ["R18", "R21", "R8", "R5", "R6", "R17", "R10/R18", "R1/O1", "R1/O2", "R1/O3", "R1/O4", "R20/table", "R20/delay", "R11/raw"],
-    "C05": ["R3/INIT", "R8", "R1/O4", "R1/O5", "R2", "R4/wake", "R4/settle", "R4/wait", "R5", "R6", "R7/site", "R19/anc-closure"],
+    "C04": ["R18", "R21", "R8", "R5", "R6", "R17", "R10/R18", "R1/O1", "R1/O2", "R1/O3", "R1/O4", "R20/table", "R20/delay", "R11/raw", "R4/dedup", "R4/wake", "R19/anc-closure", "R19/closure"],
+    "C05": ["R3/INIT", "R8", "R1/O4", "R1/O5", "R2", "R4/wake", "R4/settle", "R4/wait", "R5", "R6", "R7/site", "R19/anc-closure", "R19/zero", "R19/closure", "R19/gate", "R19/seed"],
     "C06": ["R5", "R6", "R7/site", "R7/R9", "R19", "R20/delay"],
-    "C07": ["R2/INFLIGHT", "R2/sink", "R2/anc", "R2/own", "R2/until", "R2/extra", "R3/P3", "R5/store", "R5/update_min", "R19/anc-closure"],
-    "C08": ["R6", "R7/key"],
-    "C09": ["R7/R9", "R4/wake", "R8/lift", "R3/R12", "R4/outtime", "R19/interval", "R20/delay", "R20/table/triggers", "R1/O3", "R1/O1"],
+    "C07": ["R2/INFLIGHT", "R2/sink", "R2/anc", "R2/own", "R2/until", "R2/extra", "R3/P3", "R5/store", "R5/update_min", "R19/anc-closure", "R4/notify", "R20/delay"],
+    "C08": ["R6", "R7/key", "R7/R9", "R5/update_min"],
+    "C09": ["R7/R9", "R4/wake", "R8/lift", "R3/R12", "R4/outtime", "R19/interval", "R20/delay", "R20/table/triggers", "R1/O3", "R1/O1", "R5/store", "R14/waiter", "R14/groups"],
     "C10": ["R1/O3", "R1/O4", "R2/INFLIGHT", "R2/sink", "R2/own", "R20/table/successors", "R20/delay", "R20/async", "R20/writers", "R10/R18"],
     "C11": ["R7/R9", "R20", "R19/interval", "R19/group_path", "R22/readers", "R22/tuple", "R22/defaults", "R22/forbidden", "R22/triple"],
     "C12": ["R22"],
-    "C13": ["R11", "R3/P2", "R3/P6"],
+    "C13": ["R11", "R3/P2", "R3/P6", "R14/waiter", "R14/groups"],
     "C14": ["R14", "R11/conn", "R11/raw"],
     "C15": ["R23", "R3/P3b"],
     "C16": ["R1/O2", "R1/O4", "R20/async", "R20/connect", "R20/writers", "R10/gate", "R10/set_data", "R10/get_data", "R17/take", "R17/memory", "R17/writeback"],
